@@ -122,6 +122,7 @@ func runC11(c *Config, r *Report) {
 	c11R12(ic, r)
 	c11R13(ic, r)
 	c11R14(ic, r)
+	c11R15(ic, r)
 }
 
 // r114Exceptions: callers of a compile pass outside the pipeline that are accepted, one per line with the reason.
@@ -1320,5 +1321,81 @@ func c11R14(ic *IC, r *Report) {
 	}
 	if n == 0 {
 		r.Errorf("R11.14: no helper of the compile pass entering a variable symbol found (compDefineX expected)")
+	}
+}
+
+func init() {
+	ruleText["R11.15"] = "how a chunk is parsed (as declarations, or wrapped as statements of main) is decided on the first token as go/scanner delivers it: every function of package interp returning a go/token.Token returns, at each of its returns, a value that is a result of (*go/scanner.Scanner).Scan, a constant of go/token, or the result of another such function - and at least one return is a Scan result; the text of the source is not matched by hand (a prefix test takes the identifier `variable` for the keyword var)"
+}
+
+// c11R15: round-8 seed. firstToken got a fast path comparing the leading word of the source
+// with the spelling of the declaration keywords by strings.HasPrefix.
+func c11R15(ic *IC, r *Report) {
+	info := ic.Info
+	n := 0
+	var names []string
+	for name := range ic.F {
+		names = append(names, name)
+	}
+	sort.Strings(names)
+	for _, name := range names {
+		fi := ic.F[name]
+		if fi.Decl.Body == nil || fi.Decl.Type.Results == nil || len(fi.Decl.Type.Results.List) != 1 {
+			continue
+		}
+		if types.TypeString(info.TypeOf(fi.Decl.Type.Results.List[0].Type), nil) != "go/token.Token" {
+			continue
+		}
+		// only the functions that look at source text: a string or []byte parameter
+		takesText := false
+		for _, f := range fi.Decl.Type.Params.List {
+			switch types.TypeString(info.TypeOf(f.Type), nil) {
+			case "string", "[]byte":
+				takesText = true
+			}
+		}
+		if !takesText {
+			continue
+		}
+		n++
+		scanVars := map[types.Object]bool{}
+		ast.Inspect(fi.Decl.Body, func(q ast.Node) bool {
+			as, ok := q.(*ast.AssignStmt)
+			if !ok || len(as.Rhs) != 1 || len(as.Lhs) != 3 {
+				return true
+			}
+			if c, ok := unparen(as.Rhs[0]).(*ast.CallExpr); ok && isCallTo(info, c, "go/scanner.Scanner.Scan") {
+				if id := identOf(as.Lhs[1]); id != nil {
+					scanVars[info.ObjectOf(id)] = true
+				}
+			}
+			return true
+		})
+		bad, fromScan := "", false
+		ast.Inspect(fi.Decl.Body, func(q ast.Node) bool {
+			if _, ok := q.(*ast.FuncLit); ok {
+				return false
+			}
+			rs, ok := q.(*ast.ReturnStmt)
+			if !ok || len(rs.Results) != 1 {
+				return true
+			}
+			e := unparen(rs.Results[0])
+			if id := identOf(e); id != nil && scanVars[info.ObjectOf(id)] {
+				fromScan = true
+				return true
+			}
+			// a token constant, a loop variable over a table of tokens ... chosen by looking at the text
+			bad = "return " + types.ExprString(e) + " at " + ic.pos(rs.Pos()) + " is not the token delivered by the scanner"
+			return true
+		})
+		if !fromScan && bad == "" {
+			bad = "no return yields a result of (*scanner.Scanner).Scan"
+		}
+		r.Check(bad == "", "R11.15", name+"/token-delivered-by-the-scanner", ic.pos(fi.Decl.Pos()), "every return yields the token of go/scanner",
+			name+" classifies source text by hand: "+bad+". A chunk like `variable := 3` or `typeName.Do()` whose first identifier merely starts like a keyword is taken for a declaration, parsed as a file and rejected, although it is a valid statement chunk of an incremental session")
+	}
+	if n == 0 {
+		r.Errorf("R11.15: no function of package interp turning source text into a go/token.Token found (firstToken expected)")
 	}
 }
